@@ -216,7 +216,7 @@ def random_history(rng, maxlen=8, with_rejects=False, continuation=True):
 
 
 # ---------------------------------------------------------------------------------------------- whole-API programs (C09)
-STRATS = ["PiecewiseConstant", "LinearFixed", "LinearAdaptive", "ExpFixed", "ExpAdaptive", "CubicSpline"]
+STRATS = ["PiecewiseConstant", "LinearFixed", "LinearAdaptive", "ExpFixed", "ExpAdaptive", "CubicSpline", "CubicSpline", "FunctionNorm", "FunctionInterp"]      # (a constant sampler would make normalize_y undefined)
 METHODS = ["linear", "constant", "cubic", "spline"]
 
 
